@@ -337,7 +337,7 @@ func (e *explorer) done(pr *PathResult, forks []*WorkItem, w *Worker, sample *Sa
 		e.leaked[a] = true
 	}
 	switch pr.Status {
-	case "ok", "panic":
+	case "ok", "panic", "violation-end":
 		r.PathsOK++
 	case "infeasible":
 		r.Infeasible++
@@ -438,7 +438,7 @@ func (w *Worker) runPath(h *Harness, item *WorkItem) (pr *PathResult, forks []*W
 		pcSet: map[int]bool{}, prefix: item.Prefix, symNames: map[string]int{},
 		unwind: h.Unwind, maxSteps: h.MaxSteps,
 		pools: map[*Value][]Value{}, locks: map[*Value]*lockState{}, strObjs: map[string]*ByteObj{},
-		timerOf: map[*Value]*Timer{}, asserts: map[string]int{},
+		timerOf: map[*Value]*Timer{}, vecs: map[*Value]*vecState{}, asserts: map[string]int{},
 		tainted: item.Tainted,
 	}
 	w.curItem = item
@@ -569,9 +569,12 @@ func explore(prog *ssa.Program, h *Harness, opts *Options) *HarnessResult {
 		wg.Add(1)
 		go func(id int) {
 			defer wg.Done()
-			ctx := NewCtx()
-			w := &Worker{id: id, opts: opts, prog: prog, ctx: ctx, solver: NewSolver(ctx, opts.backend, opts.timeoutMs), fnInfos: map[*ssa.Function]*fnInfo{}}
+			var ctx *Ctx
+			var w *Worker
 			defer func() {
+				if w == nil {
+					return
+				}
 				qmu.Lock()
 				res.Queries += w.solver.Queries
 				res.SolverSec += w.solver.Seconds
@@ -583,10 +586,20 @@ func explore(prog *ssa.Program, h *Harness, opts *Options) *HarnessResult {
 				if it == nil {
 					return
 				}
+				if w == nil {
+					ctx = NewCtx()
+					w = &Worker{id: id, opts: opts, prog: prog, ctx: ctx, solver: NewSolver(ctx, opts.backend, opts.timeoutMs), fnInfos: map[*ssa.Function]*fnInfo{}}
+				}
+				pathSem <- struct{}{}
 				pr, forks, sample, approx, leaked := w.runPath(h, it)
+				<-pathSem
 				e.done(pr, forks, w, sample, approx, leaked)
 				// keep the term table from growing without bound
 				if len(ctx.tab) > 3_000_000 {
+					qmu.Lock()
+					res.Queries += w.solver.Queries
+					res.SolverSec += w.solver.Seconds
+					qmu.Unlock()
 					w.solver.Close()
 					ctx = NewCtx()
 					w.ctx = ctx
